@@ -9,6 +9,7 @@
 -/
 import Optyx.Py.Solve
 import Optyx.Generated.ScipyPost
+import Optyx.Generated.SolverGlue
 
 namespace Optyx.Props.SolveTie
 open Optyx Optyx.Py.Solve Optyx.Generated Optyx.Py.Post
@@ -102,6 +103,15 @@ theorem solutionKwargs_pin :
       ("values", "{v.name: float(result.x[i]) for i, v in enumerate(variables)}"),
       ("iterations", "result.nit if hasattr(result, 'nit') else None"), ("message", "message"),
       ("solve_time", "solve_time")] := by decide
+
+/-- **C07 directly about translated code**: `_build_solver_cache` hands SciPy `-f` exactly under `maximize`
+    (`Generated.glueNegateOnMaximize`, from the source), SciPy's contract is `result.fun = (that function)(result.x)`, and the
+    post-processing reports `objValueG maximize result.fun`: the reported objective is the user's `f(x*)` again, in the user's
+    orientation, for both senses -/
+theorem reported_objective_of_source_equations (maximize : Bool) (fx : Rat) :
+    objValueG maximize (if (glueNegateOnMaximize && maximize) = true then -fx else fx) = fx := by
+  unfold objValueG
+  cases maximize <;> simp [glueNegateOnMaximize]
 
 /-- all ties of this file, for the audit -/
 theorem post_processing_is_source :
